@@ -52,6 +52,7 @@ pub struct L2Observed {
     pub http_log: Vec<http::ReqLog>,
     pub header: crate::refs::format::Header,
     pub seed_pipe_used: bool,
+    pub seed_aliases_output: bool,
 }
 
 /// Run one L2 scenario and return what was observed. `extra_hook` lets callers inject faults.
@@ -99,6 +100,7 @@ pub fn execute_on(prop: &str, c: &L2Scen, e: &Expect, extra_hook: Option<l2::Hoo
     }
     let prior = prior_override.map(|p| p.to_vec()).or_else(|| e.prior.clone());
     // option combinations that ask for nothing new (a function of the case): 0 and 1 in 2 cases of 6
+    let mut seed_aliases_output = false;
     let flag_mix = if std::env::var("BVERIF_NO_VERBOSITY").is_err() { blake2_64(&[&case_salt().to_le_bytes(), b"flag-mix"]) % 6 } else { 5 };
     if let Some(p) = &prior {
         if device.is_none() {
@@ -112,6 +114,22 @@ pub fn execute_on(prop: &str, c: &L2Scen, e: &Expect, extra_hook: Option<l2::Hoo
             }
         } else {
             args.push("--force-create".into());
+            // the file being overwritten may also be named as a seed (by its own path or through a hard link): seeds never
+            // change what a clone produces. Only where the final bytes are judged - what is found in a seed that is being
+            // overwritten while it is read is not predictable, so the read / write / request oracles keep their plain seeds.
+            if device.is_none() && matches!(prop, "C02" | "C03") {
+                match flag_mix {
+                    2 => args.extend(["--seed".to_string(), "o.out".to_string()]),
+                    3 => {
+                        let _ = std::fs::remove_file(dir.join("o.link"));
+                        if std::fs::hard_link(dir.join("o.out"), dir.join("o.link")).is_ok() {
+                            args.extend(["--seed".to_string(), "o.link".to_string()]);
+                        }
+                    }
+                    _ => {}
+                }
+                seed_aliases_output = matches!(flag_mix, 2 | 3);
+            }
         }
     } else if device.is_none() {
         // no output yet: --force-create or --seed-output on an absent output is a plain clone into a new file
@@ -150,7 +168,7 @@ pub fn execute_on(prop: &str, c: &L2Scen, e: &Expect, extra_hook: Option<l2::Hoo
     let http_log = srv.as_ref().map(|s| s.requests()).unwrap_or_default();
     drop(srv);
     let events = l2::parse_hook_log(&log);
-    Ok(L2Observed { run, output, events, http_log, header, seed_pipe_used })
+    Ok(L2Observed { run, output, events, http_log, header, seed_pipe_used, seed_aliases_output })
 }
 
 fn ranges_union_exact(mut got: Vec<(u64, u64)>, mut want: Vec<(u64, u64)>) -> Result<(), String> {
@@ -290,6 +308,12 @@ pub fn l2_scenario(prop: &str, c: &L2Scen, rec: &mut CaseRec, nontrivial: &dyn F
                 not_judged = Some("clone_failed_under_the_injected_fault");
                 return Ok(());
             }
+            if o.seed_aliases_output {
+                // a seed that is being overwritten while it is read need not be usable (a seed file that GROWS after the
+                // chunker saw its end even panics the scan today - DESIGN 8.2); C02 speaks about clones that report success
+                not_judged = Some("clone_failed_with_a_seed_that_is_the_output_file_itself");
+                return Ok(());
+            }
             if judges_output {
                 return Err(format!("bita clone failed: {}", o.run.describe()));
             }
@@ -320,6 +344,7 @@ pub fn l2_scenario(prop: &str, c: &L2Scen, rec: &mut CaseRec, nontrivial: &dyn F
     rec.level = Some("L2");
     rec.class_if(c.http, "http");
     rec.class_if(o.seed_pipe_used, "seed_file_is_a_named_pipe");
+    rec.class_if(o.seed_aliases_output, "a_seed_is_the_output_file_itself_(path_or_hard_link)");
     rec.class_if(c.fault.is_some(), "clone_succeeded_with_an_injected_fault_(or_the_fault_was_never_reached)");
     rec.class_if(c.stdin_seed.map(|i| (i as usize) < e.seeds.len()).unwrap_or(false), "stdin_seed");
     nontrivial(s, &e, rec);
